@@ -39,6 +39,14 @@ CHECKS = {
        "draws per row against N(a, A) (KS / mean / covariance / lag-1, p<1e-9). Defects F1-F5 recognised by exact signatures.",
   design_ref="DESIGN.md 4.2, 4.3, 5/C03, 6", note=KERNEL_NOTE + " numpy's multivariate_normal is trusted to draw from the (mean, cov) it is given.",
   technique="property-based testing: captured-argument differential against closed form + statistical goodness-of-fit"),
+ "C04": dict(
+  category="exploration",
+  text="Generated problems with hand-built rows (arbitrary linear values) and rows returned by rejection_sample: RV curve of "
+       "get_orbit() vs. design matrix x parameters with an independent Kepler solve at data and off-data epochs; t_ref of sampler "
+       "output; ln_unmarginalized_likelihood vs. the Gaussian sum on offset-corrected data; Bayes identity with the closed-form "
+       "marginal; reported ln_likelihood vs. closed form (recorded kernel defects recognised).",
+  design_ref="DESIGN.md 4.2, 5/C04", note=KERNEL_NOTE + " The identity is evaluated with the closed-form marginal on the left so that the kernel defects F1/F2/F4 do not mask errors of the right-hand side.",
+  technique="property-based differential testing (two code paths vs. an independent reference model)"),
  "C05": dict(
   category="exploration",
   text="Rule-based state machine (Hypothesis stateful): one problem, one probe library with pairwise distinct likelihoods and "
@@ -74,6 +82,15 @@ CHECKS = {
        "that labels matter. The label defect F5 (ids not re-sorted) is recognised exactly and reported as a known finding.",
   design_ref="DESIGN.md 5/C08, 6", note=KERNEL_NOTE,
   technique="property-based testing with tagged observations (provenance oracle) + closed-form differential"),
+ "C09": dict(
+  category="exploration",
+  text="Generated parameters/evaluation points for the exported distribution classes (pm.logp vs. closed forms, numeric "
+       "normalisation, support edges) and generated whole priors: 4000-20000 draws per configuration tested against closed-form "
+       "CDFs (KS, p<1e-9 fails), and ln_prior vs. the sum of declared log-densities up to one constant. Led to two fix: commits "
+       "(UniformLog.logp; K term of ln_prior).",
+  design_ref="DESIGN.md 5/C09, 6", note="Statistical tests have a 1e-9 threshold with fixed seeds; distributional errors below a few per cent can pass. Density comparisons use 1e-6 "
+       "(pytensor keeps float32-representable constants in single precision).",
+  technique="property-based testing: closed-form density oracle + goodness-of-fit tests on generated priors"),
  "C10": dict(
   category="exploration",
   text="Generated call histories (nine entry points incl. prior samples by count, iterative sampling, read_batch) executed twice "
@@ -83,6 +100,15 @@ CHECKS = {
        "between successive calls. Led to one fix: commit (prior samples by count ignored the generator).",
   design_ref="DESIGN.md 5/C10, 6", note="pymc's pm.draw(random_seed=Generator) is trusted to confine itself to the generator it is given (checked only through the global-state sentinels).",
   technique="property-based testing over call histories (determinism / isolation oracles)"),
+ "C11": dict(
+  category="exploration",
+  text="Generated prior/data configurations: setup_mcmc once per configuration, model compiled once and evaluated at many generated "
+       "parameter points: model_rv vs. the sampler's design matrix (independent Kepler solve), model.logp(jacobian=False) vs. "
+       "declared priors + Gaussian term up to one constant, ln_likelihood / ln_prior diagnostics, mcmc_init vs. chosen sample. "
+       "Led to two fix: commits (jitter missing in ln_likelihood; parameters not converted from prior units).",
+  design_ref="DESIGN.md 5/C11, 6", note="Trusts pymc's replace_rvs_by_values / compile_fn and its transforms (log, logodds, interval) to map value variables to physical values. "
+       "Angles are evaluated on the unit circle of the pymc_ext angle parametrisation (its regulariser is constant there). F5 (labels) recognised.",
+  technique="property-based differential testing of two model implementations over generated parameter points"),
  "C12": dict(
   category="exploration",
   text="Rule-based state machine (Hypothesis stateful) over a scratch directory: write / refused write / overwrite / same-schema "
